@@ -66,6 +66,18 @@ pub fn is_type(opcode: spirv::Op) -> bool {
             | spirv::Op::TypeAccelerationStructureKHR
             | spirv::Op::TypeRayQueryKHR
             | spirv::Op::TypeForwardPointer
+            | spirv::Op::TypePipeStorage
+            | spirv::Op::TypeNamedBarrier
+            | spirv::Op::TypeUntypedPointerKHR
+            | spirv::Op::TypeCooperativeMatrixKHR
+            | spirv::Op::TypeNodePayloadArrayAMDX
+            | spirv::Op::TypeHitObjectNV
+            | spirv::Op::TypeCooperativeVectorNV
+            | spirv::Op::TypeCooperativeMatrixNV
+            | spirv::Op::TypeTensorLayoutNV
+            | spirv::Op::TypeTensorViewNV
+            | spirv::Op::TypeBufferSurfaceINTEL
+            | spirv::Op::TypeStructContinuedINTEL
     )
 }
 
